@@ -27,7 +27,7 @@ FAMILY = {
     'joins': "start: ','%{'a'}+ | ';'.{'b'} | ','%{'c'} $ ;\n",
     'lookaheads_groups': "start: &'a' (?:'a') ('b' | 'c')* !'d' /./? ;\n",
     'named_forms': "start: x='a' y+='b' @:'c' | @+:'d' z:'e' ;\n",
-    'include': "r: x='a' ;\nstart: >r ['b'] ;\n",
+    'include': "start: q ['b'] $ ;\nr: x='a' ;\nq: >r ':' y=['a'] ;\n",      # (start first: the first rule is the default start rule; the include sits in a rule that is called)
     'choice_in_closure': "start: { 'a' | 'b' 'c' | () 'd' }+ ;\n",
     'cut_forms': "start: 'a' ~ 'b' | 'a' 'c' ;\n",
     'leftrec': "start: e $ ;\ne: e '+' t | t ;\nt: /[0-9]/ | '(' ~ e ')' ;\n",
